@@ -29,10 +29,10 @@ def tableC13B : List (String × Rd String) := [
     pure (wrIdxs (Hand.lnPflipsAll ws normed (words.map Hand.open01)))),
   ("ln_pflip", do
     let _ ← Wire.next; let ws ← rdL rdF; let words ← rdL rdN
-    pure (wrIdx (Hand.lnPflip ws (words.map Hand.std01)))),
+    pure (wrIdx (Hand.lnPflip ws (words.map Hand.open01)))),
   ("gumbel_pflip", do
     let _ ← Wire.next; let ws ← rdL rdF; let words ← rdL rdN
-    pure (wrIdx (Hand.gumbelPflip ws (words.map Hand.std01)))),
+    pure (wrIdx (Hand.gumbelPflip ws (words.map Hand.open01)))),
   ("argmax", do
     let _ ← Wire.next; let xs ← rdL rdF
     pure (wrL wrN (Hand.argmax xs))),
